@@ -74,22 +74,57 @@ Theorem C11_node_addressing : forall (D Hsh : Type) (hempty : Hsh) (hleaf : D ->
   else nval hempty hleaf hbranch l k (2 * i).
 Proof. exact @nval_step. Qed.
 
-(* SOUNDNESS of VerifyProof (the faithful calculatePathNodes model), every tree size 1 <= n <= 2^29, any number of
-   claims, any sibling hashes: if every non-zero index is the index of a leaf of the tree (leaf_idx n pos = 2^height + pos,
-   pos < n) and the proof verifies against the LIP-0031 root of l, then every claimed hash is the leaf hash of l at the
-   claimed position.  Hypotheses on the hash: the equality test decides equality, the branch hash is injective. *)
+(* SOUNDNESS of VerifyProof (the faithful VerifyProof / calculatePathNodes model), every tree size 1 <= n <= 2^29, any
+   number of claims, any sibling hashes, ARBITRARY index list (proof.Idxs comes with the proof and is not trusted): if the
+   proof verifies against the LIP-0031 root of l then every claim at a leaf index (leaf_idx n pos = 2^height + pos) carries
+   the leaf hash of l at that position -- whatever claims at internal, pass-through or ancestor indexes accompany it.
+   (No hypothesis on idxs any more: as repaired, VerifyProof rejects indexes that are not 0 and not nodes of the tree, and
+   calculatePathNodes compares a hash claimed for a parent index with the computed branch hash AND with the hash carried up
+   through a node without sibling; before fix 373680a an ancestor claim could shadow a false leaf claim.)
+   Hypotheses on the hash: the equality test decides equality, the branch hash is injective.  The size is the verifier's
+   (len l = n): see C11_proof_position_wrong_size_refuted. *)
 Theorem C11_proof_sound : forall (n : N), size_ok n ->
   forall (D Hsh : Type) (hempty : Hsh) (hleaf : D -> Hsh) (hbranch : Hsh -> Hsh -> Hsh) (heqb : Hsh -> Hsh -> bool),
   (forall a b, heqb a b = true -> a = b) ->
   (forall a b c d, hbranch a b = hbranch c d -> a = c /\ b = d) ->
   forall (l : list D), len l = n ->
   forall (qs : list Hsh) (idxs : list N) (sibs : list Hsh),
-  leaf_claims n idxs ->
   verify_proof hbranch heqb qs n idxs sibs (mroot hempty hleaf hbranch l) = true ->
   forall (j : nat) (pos : N) (q : Hsh) (x : D),
   nth_error idxs j = Some (leaf_idx n pos) -> nth_error qs j = Some q -> nth_error l (N.to_nat pos) = Some x ->
   q = hleaf x.
 Proof. exact @proof_sound. Qed.
+
+(* ... and more: every accepted index is 0 or the index of a node (layer k, index i) of the tree, and EVERY claim -- leaf,
+   branch node, pass-through node -- carries the value of its node, nval l k i = mroot of the 2^k-block i of l *)
+Theorem C11_proof_sound_every_claim : forall (n : N), size_ok n ->
+  forall (D Hsh : Type) (hempty : Hsh) (hleaf : D -> Hsh) (hbranch : Hsh -> Hsh -> Hsh) (heqb : Hsh -> Hsh -> bool),
+  (forall a b, heqb a b = true -> a = b) ->
+  (forall a b c d, hbranch a b = hbranch c d -> a = c /\ b = d) ->
+  forall (l : list D), len l = n ->
+  forall (qs : list Hsh) (idxs : list N) (sibs : list Hsh),
+  verify_proof hbranch heqb qs n idxs sibs (mroot hempty hleaf hbranch l) = true ->
+  (forall idx, In idx idxs -> idx = 0 \/ exists k i, vnode n k i /\ idx = nidx (get_height n) k i) /\
+  (forall (j : nat) (k i : N) (q : Hsh),
+     nth_error idxs j = Some (nidx (get_height n) k i) -> vnode n k i -> nth_error qs j = Some q ->
+     q = nval hempty hleaf hbranch l k i).
+Proof. exact @proof_sound_any. Qed.
+
+(* "... or root": a proof that verifies against one root verifies against no other root (exact equality test) *)
+Theorem C11_proof_rejects_other_root :
+  forall (Hsh : Type) (hbranch : Hsh -> Hsh -> Hsh) (heqb : Hsh -> Hsh -> bool),
+  (forall a b, heqb a b = true -> a = b) ->
+  forall (qs : list Hsh) (n : N) (idxs : list N) (sibs : list Hsh) (root root' : Hsh),
+  verify_proof hbranch heqb qs n idxs sibs root = true -> root' <> root ->
+  verify_proof hbranch heqb qs n idxs sibs root' = false.
+Proof.
+  intros Hsh hbranch heqb He qs n idxs sibs root root' Hv Hne. unfold verify_proof in *.
+  destruct (n =? 0)%N; [discriminate|].
+  destruct (negb (forallb (fun i => (i =? 0)%N || valid_idx n i) idxs)); [discriminate|].
+  destruct (root_of (calc_path_nodes hbranch heqb qs n idxs sibs)) as [r| |]; try discriminate.
+  destruct (heqb r root') eqn:E; [|reflexivity]. exfalso. apply Hne.
+  apply He in E. apply He in Hv. congruence.
+Qed.
 
 (* non-vacuity of the soundness hypotheses: the free hash is injective and its equality test is exact *)
 Fixpoint fh_eqb (a b : fh) : bool :=
@@ -123,14 +158,13 @@ Theorem C11_proof_rejects_other_data : forall (n : N), size_ok n ->
   (forall x y, hleaf x = hleaf y -> x = y) ->
   forall (l : list D), len l = n ->
   forall (ds : list D) (idxs : list N) (sibs : list Hsh) (j : nat) (pos : N) (d x : D),
-  leaf_claims n idxs ->
   nth_error idxs j = Some (leaf_idx n pos) -> nth_error ds j = Some d -> nth_error l (N.to_nat pos) = Some x -> d <> x ->
   verify_proof hbranch heqb (map hleaf ds) n idxs sibs (mroot hempty hleaf hbranch l) = false.
 Proof.
-  intros n Hn D Hsh hempty hleaf hbranch heqb He Hb Hl l Hlen ds idxs sibs j pos d x Hc Hi Hd Hx Hne.
+  intros n Hn D Hsh hempty hleaf hbranch heqb He Hb Hl l Hlen ds idxs sibs j pos d x Hi Hd Hx Hne.
   destruct (verify_proof hbranch heqb (map hleaf ds) n idxs sibs (mroot hempty hleaf hbranch l)) eqn:E; [|reflexivity].
   exfalso. apply Hne. apply Hl.
-  eapply (proof_sound n Hn hempty hleaf hbranch heqb He Hb l Hlen (map hleaf ds) idxs sibs Hc E j pos); eauto.
+  eapply (proof_sound n Hn hempty hleaf hbranch heqb He Hb l Hlen (map hleaf ds) idxs sibs E j pos); eauto.
   rewrite nth_error_map, Hd. reflexivity.
 Qed.
 
@@ -230,3 +264,56 @@ Example C11_ex_proof5 :
                sibs = [FB (FB (FL 1) (FL 2)) (FB (FL 3) (FL 4))]%nat /\
                verify_proof FB fh_eqb [FL 5%nat] 5 [leaf_idx 5 4] sibs (mroot FE FL FB [1; 2; 3; 4; 5]%nat) = true.
 Proof. eexists. split; [vm_compute; reflexivity|]. split; [reflexivity|vm_compute; reflexivity]. Qed.
+
+From Coq Require Import Lia.
+(* non-vacuity of C11_reload_continues: a script with appends, a single and a double Update and two re-open steps
+   satisfies script_ok (second audit's witness) *)
+Definition C11_ex_script : list (@op nat) :=
+  [OApp 1%nat; OApp 2%nat; OApp 3%nat; OUpd [2%N] [1; 2; 9]%nat; OReopen; OApp 4%nat; OUpd [0%N; 3%N] [7; 2; 9; 8]%nat; OReopen].
+Example C11_ex_reload_script_ok : script_ok [] C11_ex_script /\ final [] C11_ex_script = [7; 2; 9; 8]%nat.
+Proof.
+  split; [|reflexivity].
+  cbn [C11_ex_script script_ok op_ok after app].
+  repeat split; try discriminate; try (cbn; lia).
+  - intros q Hq. do 3 (destruct q as [|q]; [try reflexivity; exfalso; apply Hq; cbn; auto|]). reflexivity.
+  - intros q Hq. do 4 (destruct q as [|q]; [try reflexivity; exfalso; apply Hq; cbn; auto|]). reflexivity.
+Qed.
+
+(* KNOWN FINDING c11:seq:stale-hash-index as a theorem.  GenerateProof takes leaf HASHES and resolves them through the
+   hash -> location index of rmt.go.  Its leaf part: saveNode(hash, location) overwrites the entry of that hash on every
+   Append and Update, nothing is ever deleted (replaceNode's Del(prevValue) deletes an un-prefixed key, i.e. nothing).  So a
+   hash resolves to the position of its LAST write, whether or not the value is still there: after [a; b; a] and
+   Update(2 := c) the value a is in the list (position 0) but resolves to position 2, which holds c.  The correspondence
+   (Corr.C11.check_seq: writes / last_write) checks that the Go resolution is exactly this function on every script. *)
+Section HashIndex.
+  Context {D Hsh : Type}.
+  Variable hleaf : D -> Hsh.
+  Variable heqb : Hsh -> Hsh -> bool.
+  Inductive iop := IApp (v : D) | IUpd (pos : nat) (v : D).
+  Definition istep (st : list D * list (Hsh * nat)) (o : iop) : list D * list (Hsh * nat) :=
+    let '(l, ix) := st in
+    match o with
+    | IApp v => (l ++ [v], (hleaf v, length l) :: ix)
+    | IUpd pos v => (upd l pos v, (hleaf v, pos) :: ix)
+    end.
+  Definition resolve (ix : list (Hsh * nat)) (h : Hsh) : option nat :=
+    match find (fun p => heqb (fst p) h) ix with Some p => Some (snd p) | None => None end.
+End HashIndex.
+Theorem C11_resolution_by_hash_refuted :
+  exists (script : list (@iop nat)) (a : nat),
+    let '(l, ix) := fold_left (istep FL) script ([], []) in
+    In a l /\ exists p, resolve fh_eqb ix (FL a) = Some p /\ nth_error l p <> Some a.
+Proof.
+  exists [IApp 1; IApp 2; IApp 1; IUpd 2 3]%nat, 1%nat. cbn. split; [auto|]. exists 2%nat. split; [reflexivity|discriminate].
+Qed.
+
+(* why VerifyProof must check the indexes (fix 0399db1): calculatePathNodes alone reaches the true root of [1..6] from the
+   FALSE claim "node (layer 1, index 2) has hash H(5)" (its value is B(H 5, H 6)) helped by a claim at index 11 = (layer 1,
+   index 3), which names no node of a tree of 6 leaves; VerifyProof rejects that index *)
+Example C11_ex_index_check_needed :
+  let sibs := [FB (FB (FL 1) (FL 2)) (FB (FL 3) (FL 4))]%nat in
+  let root := mroot FE FL FB [1; 2; 3; 4; 5; 6]%nat in
+  root_of (calc_path_nodes FB fh_eqb [FL 5; FL 6]%nat 6 [10; 11]%N sibs) = Ok root /\
+  nval FE FL FB [1; 2; 3; 4; 5; 6]%nat 1 2 <> FL 5%nat /\
+  verify_proof FB fh_eqb [FL 5; FL 6]%nat 6 [10; 11]%N sibs root = false.
+Proof. vm_compute. repeat split; try reflexivity. discriminate. Qed.
